@@ -38,6 +38,10 @@ func main() {
 		cmdReplay(args)
 	case "selftest":
 		cmdSelftest(args)
+	case "mutcheck":
+		cmdMutcheck(args)
+	case "inliners":
+		cmdInliners(args)
 	default:
 		usage()
 	}
